@@ -7,6 +7,8 @@ EXTENDS AddrUniverse, TLC
 CONSTANTS Modes, E164Alphabet, E164Len, WideFaults,
           KeySel     \* this run's slice of the Init keys (the universe is split over several TLC runs)
 VARIABLES mode, key, x, picked
+AllKeys == 0..255
+KeyRange(lo, hi) == lo..hi
 vars == <<mode, key, x, picked>>
 
 RECURSIVE SeqsUpTo(_, _)
@@ -15,10 +17,10 @@ E164Texts == SeqsUpTo(E164Alphabet, E164Len)
 
 Keys(m) == CASE m = "a6" -> 0..255
              [] m = "emb" -> QuadOctets
-             [] m = "a4" -> V4Octets
+             [] m = "a4" -> V4Octets \cup McOctets
              [] m = "e164" -> E164Alphabet \cup {0}
 Inputs(m, k) == CASE m = "a6" -> PatternAddrs(k)
-                  [] m = "emb" -> {a \in EmbeddedAddrs : a[13] = k}
+                  [] m = "emb" -> {a \in EmbeddedAddrs : a[13] = k} \cup (IF k = 0 THEN Special6 ELSE {})
                   [] m = "a4" -> {a \in U4 : a[1] = k}
                   [] m = "e164" -> {t \in E164Texts : IF t = <<>> THEN k = 0 ELSE t[1] = k}
 Init == mode \in Modes /\ key \in Keys(mode) \cap KeySel /\ x = <<>> /\ picked = FALSE
@@ -68,7 +70,8 @@ Reverse6Faults == Is6 => \A n \in NameFaults(Rev6(x, Ip6), 32) :
                       IN  v[1] # "err" => v[1] = "ok6" /\ SameName(Rev6(v[2], Ip6), n)
 
 -----------------------------------------------------------------------------
-RoundTrip4 == Is4 => Aton4(Ntoa4(x)) = Ok(x) /\ IsErr(Aton6(Ntoa4(x))) /\ Classify(Ntoa4(x)) = <<"v4", x>>
+RoundTrip4 == Is4 => /\ Aton4(Ntoa4(x)) = Ok(x) /\ IsErr(Aton6(Ntoa4(x))) /\ Classify(Ntoa4(x)) = <<"v4", x>>
+                     /\ Multicast(Classify(Ntoa4(x))) = (x[1] \in 224..239)
 (* the strict dotted quad is the only text the parser must accept for an address *)
 Faults4 == Is4 => \A t \in V4Faults(Ntoa4(x)) :
                LET r == Aton4(t)
